@@ -206,7 +206,9 @@ def _run_path(E, c, fnode, cls, params, canary):
                             if cd.name == k:
                                 key = k
             if not canary:
-                if key is None:
+                if key is None and exc.attrs.get("reported"):
+                    pass        # the failing `safe`/`call-shape` obligation that produced it is already recorded
+                elif key is None:
                     E.oblige("raises", z3.BoolVal(False), "no %s escapes (undeclared exception)" % name,
                              assume_after=False)
                 else:
